@@ -1696,16 +1696,10 @@ fn mult_coprime(m: usize, n: usize) -> bool {
 fn has_stored_null(tab: &[Vec<Option<V>>], c: usize) -> bool {
     tab.iter().any(|e| matches!(e.get(c), Some(Some(V::Null))))
 }
-/// keep the generated predicates off the zone-map `<>` disagreement (finding K6, witnessed by the corpus)
-fn avoid_zone_ne(e: E, tab: &[Vec<Option<V>>]) -> E {
-    match e {
-        E::Bin(op @ (Op::And | Op::Or), a, b) => E::Bin(op, Box::new(avoid_zone_ne(*a, tab)), Box::new(avoid_zone_ne(*b, tab))),
-        E::Bin(Op::Ne, a, b) => match (&*a, &*b) {
-            (E::Var(i), E::Lit(_)) | (E::Lit(_), E::Var(i)) if has_stored_null(tab, *i) => E::Un(UOp::Not, Box::new(E::Bin(Op::Eq, a, b))),
-            _ => E::Bin(Op::Ne, a, b),
-        },
-        other => other,
-    }
+/// (until 1879631 the generated predicates were kept off the zone-map `<>` disagreement, finding K6; the zone map
+/// never prunes `<>` now, so nothing is avoided any more and the old witness in the corpus must pass)
+fn avoid_zone_ne(e: E, _tab: &[Vec<Option<V>>]) -> E {
+    e
 }
 fn range_atom(e: &E) -> Option<usize> {
     match e {
@@ -2307,12 +2301,7 @@ fn case_eng_lang(r: &mut Rng, g: &Graph, out: &mut Out) {
     }
     // (2) Gremlin / GraphQL filter against the Cypher filter, and count() against the number of rows
     let lit = r.range(0, 6);
-    let ops: &[(&str, &str, &str)] = if has_stored_null(&g.tab, c) {
-        // (the zone-map treatment of <> with a stored NULL is finding K6, witnessed by the corpus)
-        &[("gt", ">", "_gt"), ("gte", ">=", "_gte"), ("lt", "<", "_lt"), ("lte", "<=", "_lte"), ("eq", "=", "")]
-    } else {
-        &[("gt", ">", "_gt"), ("gte", ">=", "_gte"), ("lt", "<", "_lt"), ("lte", "<=", "_lte"), ("eq", "=", ""), ("neq", "<>", "_ne")]
-    };
+    let ops: &[(&str, &str, &str)] = &[("gt", ">", "_gt"), ("gte", ">=", "_gte"), ("lt", "<", "_lt"), ("lte", "<=", "_lte"), ("eq", "=", ""), ("neq", "<>", "_ne")];
     let (gop, cop, qop) = *r.pick(ops);
     // the evaluator's answer: a NOT at the top keeps plan_filter's range-scan path (finding K8) out of the reference
     let reference = run_query(&g.db, Lang::Cypher, &match cop {
@@ -2509,11 +2498,11 @@ fn corpus(r: &mut Rng, out: &mut Out) {
     // K4: row key collisions
     case_distinct(r, out, Some(vec![Chunk { rows: vec![vec![V::Int(4607182418800017408)], vec![f(1.0)], vec![V::Int(0)], vec![f(0.0)]], sel: None }]));
     case_distinct(r, out, Some(vec![Chunk { rows: vec![vec![V::List(vec![V::Int(1)])]], sel: None }, Chunk { rows: vec![vec![V::Str("List([Int64(1)])".into())]], sel: None }]));
-    // K5: more than 2048 fresh rows in one input chunk
+    // former K5 (fixed by 24f6dab, must pass now): more than 2048 fresh rows in one input chunk
     case_distinct_mod(r, out, Some((100000, vec![Spec { n: 2049, sel: None }])));
     case_distinct_mod(r, out, Some((100000, vec![Spec { n: 2048, sel: None }, Spec { n: 2048, sel: None }, Spec { n: 4, sel: None }])));
-    // aggregates: SUM leaves the i64 range (panic in an overflow-checked build), MIN of strings through the
-    // planner's Int64 result vector, AVG rounding, FIRST/LAST/COLLECT skip NULLs, an empty input
+    // aggregates: SUM leaves the i64 range (former K10, a66b89b: a float sum now, no panic), MIN of strings through
+    // an Int64 result vector (operator level; the planner passes Any since 41c4655, former K9), AVG rounding, FIRST/LAST/COLLECT skip NULLs, an empty input
     let col = |vs: Vec<V>| vec![Chunk { rows: vs.into_iter().map(|v| vec![V::Int(0), v]).collect(), sel: None }];
     case_agg2(r, out, Some((col(vec![V::Int(mx), V::Int(1)]), vec![AF::Sum], false, true)));
     case_agg2(r, out, Some((col(vec![V::Int(mx), V::Int(1), V::Int(-5)]), vec![AF::Sum, AF::Min, AF::Max], true, true)));
@@ -2522,7 +2511,7 @@ fn corpus(r: &mut Rng, out: &mut Out) {
     case_agg2(r, out, Some((col(vec![V::Str("b".into()), V::Str("a".into()), V::Null]), vec![AF::Min, AF::Max], false, false)));
     case_agg2(r, out, Some((col(vec![V::Int(1), V::Int(2), V::Int(2), V::Null]), vec![AF::Avg, AF::First, AF::Last, AF::Collect], false, true)));
     case_agg2(r, out, Some((col(vec![V::Int(1), V::Str("a".into()), V::Bool(true), V::Int(3)]), vec![AF::Sum, AF::Avg, AF::Min, AF::Max], false, false)));
-    // K11: the second NULL pushed into a typed result vector reads back as 0.0 / 0
+    // former K11 (fixed by dfd360c, must pass now): the second NULL pushed into a typed result vector read back as 0.0 / 0
     case_agg2(r, out, Some((vec![Chunk { rows: vec![vec![V::Int(1), V::Null], vec![V::Int(2), V::Null], vec![V::Int(3), V::Int(4)], vec![V::Int(5), V::Null]], sel: None }], vec![AF::Avg, AF::Min], true, true)));
     case_agg2(r, out, Some((vec![Chunk { rows: vec![vec![V::Int(1), V::Null], vec![V::Int(2), V::Null]], sel: None }], vec![AF::Avg, AF::Max], true, false)));
     case_agg2(r, out, Some((vec![], vec![AF::Sum, AF::Avg, AF::Min, AF::Collect, AF::CountStar], false, true)));
@@ -2567,7 +2556,7 @@ fn corpus(r: &mut Rng, out: &mut Out) {
         case_eng_part(r, &g, out, Some((E::Bin(Op::Eq, Box::new(E::Bin(Op::Div, var0(), lit(0))), lit(1)), l)));
         case_eng_part(r, &g, out, Some((E::Bin(Op::Or, Box::new(eq(2, 1)), Box::new(E::Lit(V::Bool(true)))), l)));
     }
-    // K6: zone map vs evaluator on <> with a stored NULL (p0 of M-noise nodes would widen the zone map: own table)
+    // former K6 (fixed by 1879631, must pass now): zone map vs evaluator on <> with a stored NULL (own table: no M-noise nodes)
     let gz = build_graph(&mut Rng::new(7), Some(vec![vec![None, None, None, Some(V::Int(5))], vec![None, None, None, Some(V::Null)]]));
     case_eng_part(r, &gz, out, Some((E::Bin(Op::Ne, Box::new(E::Var(3)), lit(5)), Lang::Cypher)));
     // K8: range path vs evaluator
@@ -2601,7 +2590,7 @@ fn corpus(r: &mut Rng, out: &mut Out) {
         case_eng_sort(r, &gs, out, Some((2, true, true, None, Some(3), l)));
         case_eng_sort(r, &gs, out, Some((1, false, true, Some(1), None, l)));
     }
-    // K12: Cypher count(expr) counts NULLs (GQL does not); K11 at engine level: two groups without values
+    // former K12 (a5bb467): Cypher count(expr) counted NULLs; former K11 at engine level: two groups without values
     for l in [Lang::Gql, Lang::Cypher] {
         case_eng_agg(r, &g, out, Some((AF::Count, 0, false, l)));
         case_eng_agg(r, &g, out, Some((AF::Count, 0, true, l)));
